@@ -27,7 +27,7 @@ THEOREMS = [
 ]
 ASSUMPTIONS = [
     "state level (proved): every state reachable from an empty CAS, or from any state with bounded unique ids, keeps xmi:ids (sofas included) and sofaNums pairwise distinct and below the generators",
-    "document level (observed on the implementation with independent XML/JSON parsers, not proved until the codec models are claimed): loaders reseed the generators above every id and sofaNum of the document, writers emit exactly the ids of the state",
+    "document level: loadXmi_reseeds / loadJson_reseeds are theorems; additionally observed on the implementation with independent XML/JSON parsers: loaders reseed the generators above every id and sofaNum of the document, writers emit exactly the ids of the state",
     "documents in scope have pairwise distinct ids and an _InitialView sofa (a document without one is the recorded finding I5); a structure explicitly forced onto a sofa's id is the recorded finding I3",
 ]
 
